@@ -72,13 +72,35 @@ class PathEnd(Exception):
 
 # ---------------------------------------------------------------- values
 class Int:
-    __slots__ = ('e', 'w', 'signed')
+    """machine integer: z3 bit-vector term, or (fast path) a concrete python int in .c"""
+    __slots__ = ('_e', 'w', 'signed', 'c')
 
-    def __init__(self, e, w, signed):
-        self.e, self.w, self.signed = e, w, signed
+    def __init__(self, e, w, signed, c=None):
+        self._e, self.w, self.signed, self.c = e, w, signed, c
+
+    @property
+    def e(self):
+        if self._e is None:
+            self._e = _bvval(self.c, self.w)
+        return self._e
 
     def __repr__(self):
+        if self.c is not None:
+            return 'Int(%d:%s%d)' % (self.c, 'i' if self.signed else 'u', self.w)
         return 'Int(%s:%s%d)' % (z3.simplify(self.e), 'i' if self.signed else 'u', self.w)
+
+
+_bv_cache = {}
+
+
+def _bvval(v, w):
+    k = (v, w)
+    r = _bv_cache.get(k)
+    if r is None:
+        r = z3.BitVecVal(v, w)
+        if len(_bv_cache) < 200000:
+            _bv_cache[k] = r
+    return r
 
 
 class Big:
@@ -91,13 +113,25 @@ class Big:
         return 'Big(%s)' % z3.simplify(self.e)
 
 
-class Bool:
-    __slots__ = ('e',)
+_TRUE = z3.BoolVal(True)
+_FALSE = z3.BoolVal(False)
 
-    def __init__(self, e):
-        self.e = e
+
+class Bool:
+    __slots__ = ('_e', 'c')
+
+    def __init__(self, e, c=None):
+        self._e, self.c = e, c
+
+    @property
+    def e(self):
+        if self._e is None:
+            self._e = _TRUE if self.c else _FALSE
+        return self._e
 
     def __repr__(self):
+        if self.c is not None:
+            return 'Bool(%s)' % self.c
         return 'Bool(%s)' % z3.simplify(self.e)
 
 
@@ -222,11 +256,15 @@ BUILTIN_ENUMS = {
 
 def mkint(v, ty):
     w, s = INT_TYPES[ty]
-    return Int(z3.BitVecVal(v, w), w, s)
+    return Int(None, w, s, v & ((1 << w) - 1))
 
 
 def mkbool(b):
-    return Bool(z3.BoolVal(bool(b)))
+    return Bool(None, bool(b))
+
+
+def _sgn(c, w):
+    return c - (1 << w) if c >> (w - 1) else c
 
 
 def concrete(e):
@@ -454,10 +492,11 @@ class Engine:
             if cand in self.alias and not t.startswith('&'):
                 return self.alias[cand]
         # suffix match on defined names: "a::b::f" defined, callee "b::f"
-        suf = '::' + c
-        hits = [n for n in self.funcs if n.endswith(suf)]
-        if len(hits) == 1:
-            return hits[0]
+        if '::' in c and not c.startswith('<'):
+            suf = '::' + c
+            hits = [n for n in self.funcs if n.endswith(suf)]
+            if len(hits) == 1:
+                return hits[0]
         return None
 
     # ------------------------------------------------------------ path mgmt
@@ -521,14 +560,48 @@ class Engine:
                     return l
             raise Unsupported('decision replay mismatch')
         feas = []
-        for l, c in options:
-            cc = concrete(c)
-            if cc is True:
-                feas = [(l, c)] if not feas else feas + [(l, c)]
-            elif cc is False:
-                continue
-            elif self.sat(c):
-                feas.append((l, c))
+        if len(options) > 4:
+            # model-guided enumeration: one query per feasible option (+1), not one per option
+            rem = []
+            for l, c in options:
+                cc = concrete(c)
+                if cc is True:
+                    feas.append((l, c))
+                elif cc is not False:
+                    rem.append((l, c))
+            while rem:
+                t = time.time()
+                self.solver.push()
+                self.solver.add(z3.Or(*[c for _, c in rem]))
+                r = self.solver.check()
+                hit = None
+                if r == z3.sat:
+                    mdl = self.solver.model()
+                    for k, (l, c) in enumerate(rem):
+                        if z3.is_true(mdl.eval(c, model_completion=True)):
+                            hit = k
+                            break
+                self.solver.pop()
+                self.stats['queries'] += 1
+                self.stats['solver_s'] += time.time() - t
+                if r == z3.unknown:
+                    raise Unsupported('solver unknown (timeout) during path exploration')
+                if r != z3.sat:
+                    break
+                if hit is None:
+                    raise Unsupported('model does not select an option')
+                feas.append(rem.pop(hit))
+            order = {id(c): i for i, (_, c) in enumerate(options)}
+            feas.sort(key=lambda lc: order[id(lc[1])])
+        else:
+            for l, c in options:
+                cc = concrete(c)
+                if cc is True:
+                    feas.append((l, c))
+                elif cc is False:
+                    continue
+                elif self.sat(c):
+                    feas.append((l, c))
         if not feas:
             raise PathEnd('infeasible')
         first = feas[0]
@@ -547,7 +620,7 @@ class Engine:
 
     def concretize(self, iv, lo=0, hi=64):
         """make an Int concrete by forking over its feasible values in [lo,hi]"""
-        c = concrete(iv.e)
+        c = iv.c if iv.c is not None else concrete(iv.e)
         if c is not None:
             return c
         opts = [(k, iv.e == z3.BitVecVal(k, iv.w)) for k in range(lo, hi + 1)]
@@ -562,7 +635,7 @@ class Engine:
         """harness entry: call a real function by (suffix of its) name"""
         fn = self.resolve(name)
         if fn is None:
-            raise Unsupported('no MIR body for ' + name)
+            return self.do_call(name, args, None, None)
         return self.run(self.funcs[fn], args)
 
     def run(self, f, args):
@@ -627,7 +700,10 @@ class Engine:
                         continue
                 raise
             if nxt is None:
-                return fr[0].v
+                rv = fr[0].v
+                if rv is None and f.ret.strip() == '()':
+                    rv = Struct('()', [])
+                return rv
             if nxt == '<resume>':
                 raise unwinding if unwinding is not None else PathEnd('panic', 'resume')
             bb = nxt
@@ -776,9 +852,9 @@ class Engine:
 
     def const(self, s, f=None):
         if s == 'true':
-            return Bool(z3.BoolVal(True))
+            return Bool(None, True)
         if s == 'false':
-            return Bool(z3.BoolVal(False))
+            return Bool(None, False)
         m = re.fullmatch(r'(-?\d+)_(\w+)', s)
         if m and m.group(2) in INT_TYPES:
             return mkint(int(m.group(1)), m.group(2))
@@ -866,6 +942,11 @@ class Engine:
             return self.cast(self.operand(f, fr, r[1]), r[2], r[3], fr)
         if k == 'unop':
             v = self.operand(f, fr, r[2])
+            if v.c is not None:
+                if isinstance(v, Bool):
+                    return Bool(None, not v.c)
+                m_ = (1 << v.w) - 1
+                return Int(None, v.w, v.signed, (~v.c if r[1] == 'Not' else -v.c) & m_)
             if r[1] == 'Not':
                 return Bool(z3.Not(v.e)) if isinstance(v, Bool) else Int(~v.e, v.w, v.signed)
             return Int(-v.e, v.w, v.signed)
@@ -995,10 +1076,15 @@ class Engine:
                 raise Unsupported('cast to ' + ty)
             w, sg = INT_TYPES[ty]
             if isinstance(v, Bool):
+                if v.c is not None:
+                    return Int(None, w, sg, int(v.c))
                 return Int(z3.If(v.e, z3.BitVecVal(1, w), z3.BitVecVal(0, w)), w, sg)
             if isinstance(v, Enum):
                 return mkint(self.variant_index(v), ty)
             if isinstance(v, Int):
+                if v.c is not None:
+                    cv = _sgn(v.c, v.w) if v.signed else v.c
+                    return Int(None, w, sg, cv & ((1 << w) - 1))
                 if w == v.w:
                     e = v.e
                 elif w < v.w:
@@ -1021,6 +1107,12 @@ class Engine:
 
     def binop(self, op, a, b):
         if isinstance(a, Bool) and isinstance(b, Bool):
+            if a.c is not None and b.c is not None:
+                if op == 'Eq': return Bool(None, a.c == b.c)
+                if op == 'Ne': return Bool(None, a.c != b.c)
+                if op == 'BitAnd': return Bool(None, a.c and b.c)
+                if op == 'BitOr': return Bool(None, a.c or b.c)
+                if op == 'BitXor': return Bool(None, a.c != b.c)
             if op == 'Eq': return Bool(a.e == b.e)
             if op == 'Ne': return Bool(a.e != b.e)
             if op == 'BitAnd': return Bool(z3.And(a.e, b.e))
@@ -1031,8 +1123,14 @@ class Engine:
                 y = z3.If(b.e, z3.BitVecVal(1, 8), z3.BitVecVal(0, 8))
                 return self.binop(op, Int(x, 8, False), Int(y, 8, False))
         if not (isinstance(a, Int) and isinstance(b, Int)):
+            if isinstance(a, Bool) and isinstance(b, Bool) and a.c is not None and b.c is not None:
+                pass
             raise Unsupported('binop %s on %r %r' % (op, a, b))
         w, sg = a.w, a.signed
+        if a.c is not None and b.c is not None:
+            r_ = self._binop_conc(op, a.c, b.c, w, sg, b.w)
+            if r_ is not None:
+                return r_
         x, y = a.e, b.e
         if op in ('Shl', 'Shr', 'ShlUnchecked', 'ShrUnchecked'):
             if b.w < w:
@@ -1078,6 +1176,50 @@ class Engine:
             return Enum('Ordering', 'Greater', [])
         raise Unsupported('binop ' + op)
 
+    def _binop_conc(self, op, x, y, w, sg, bw):
+        m_ = (1 << w) - 1
+        if op in ('Eq', 'Ne'):
+            return Bool(None, (x == y) == (op == 'Eq'))
+        if op in ('Lt', 'Le', 'Gt', 'Ge'):
+            xs, ys = (_sgn(x, w), _sgn(y, w)) if sg else (x, y)
+            return Bool(None, {'Lt': xs < ys, 'Le': xs <= ys, 'Gt': xs > ys, 'Ge': xs >= ys}[op])
+        if op in ('Add', 'AddUnchecked'):
+            return Int(None, w, sg, (x + y) & m_)
+        if op in ('Sub', 'SubUnchecked'):
+            return Int(None, w, sg, (x - y) & m_)
+        if op in ('Mul', 'MulUnchecked'):
+            return Int(None, w, sg, (x * y) & m_)
+        if op == 'BitAnd':
+            return Int(None, w, sg, x & y)
+        if op == 'BitOr':
+            return Int(None, w, sg, x | y)
+        if op == 'BitXor':
+            return Int(None, w, sg, x ^ y)
+        if op in ('Shl', 'ShlUnchecked'):
+            return Int(None, w, sg, (x << (y % w)) & m_)
+        if op in ('Shr', 'ShrUnchecked'):
+            xs = _sgn(x, w) if sg else x
+            return Int(None, w, sg, (xs >> (y % w)) & m_)
+        if op in ('AddWithOverflow', 'SubWithOverflow', 'MulWithOverflow'):
+            xs, ys = (_sgn(x, w), _sgn(y, w)) if sg else (x, y)
+            full = xs + ys if op[0] == 'A' else (xs - ys if op[0] == 'S' else xs * ys)
+            lo, hi = (-(1 << (w - 1)), (1 << (w - 1)) - 1) if sg else (0, m_)
+            return Struct('()', [Int(None, w, sg, full & m_), Bool(None, not (lo <= full <= hi))])
+        if op in ('Div', 'Rem') and y != 0:
+            xs, ys = (_sgn(x, w), _sgn(y, w)) if sg else (x, y)
+            q = abs(xs) // abs(ys)
+            if (xs < 0) != (ys < 0):
+                q = -q
+            r = xs - q * ys
+            return Int(None, w, sg, (q if op == 'Div' else r) & m_)
+        return None
+
+    def branch(self, v):
+        """branch on a Bool value (fast path for concrete ones)"""
+        if v.c is not None:
+            return v.c
+        return self.branch_bool(v.e)
+
     # ------------------------------------------------------------ terminators
     def term(self, f, fr, t):
         k = t[0]
@@ -1089,13 +1231,15 @@ class Engine:
             v = self.operand(f, fr, t[1])
             cases, otherwise = t[2], t[3]
             if isinstance(v, Bool):
-                val = int(self.branch_bool(v.e))
+                val = int(v.c if v.c is not None else self.branch_bool(v.e))
                 for kk, bb in cases:
                     if kk == val:
                         return bb
                 return otherwise
             if isinstance(v, Enum):
                 c = self.variant_index(v)
+            elif v.c is not None:
+                c = v.c
             else:
                 c = concrete(v.e)
             if c is None:
@@ -1142,8 +1286,11 @@ class Engine:
         if k == 'assert':
             _, neg, opnd, msg, ok_bb, unwind, span = t
             v = self.operand(f, fr, opnd)
-            e = z3.Not(v.e) if neg else v.e
-            if not self.branch_bool(e):
+            if v.c is not None:
+                ok_ = (not v.c) if neg else v.c
+            else:
+                ok_ = self.branch_bool(z3.Not(v.e) if neg else v.e)
+            if not ok_:
                 raise PathEnd('panic', 'MIR assert failed in %s: %s' % (f.name, msg), span)
             return ok_bb
         if k == 'unreachable':
@@ -1206,8 +1353,28 @@ class Engine:
             dm = re.match(r"^<dyn (\w+)(<.*?>)?( \+ .*)? as (\w+)(<.*>)?>::(\w+)$", callee)
             if dm and args:
                 return self.dyn_call(dm.group(4), dm.group(6), args, fr, dty)
+            ctor = self.ctor_call(callee, args)
+            if ctor is not None:
+                return ctor
             raise Unsupported('no MIR body or model for ' + callee)
         return self.run(self.funcs[fnname], args)
+
+    def ctor_call(self, callee, args):
+        """an enum variant / tuple struct constructor used as a function value"""
+        if callee.startswith('<'):
+            return None
+        p = re.sub(r'<.*>', '', strip_generics(callee))
+        comps = p.split('::')
+        if len(comps) >= 2:
+            e = self.enum_lookup(comps[:-1], comps[-1])
+            if e is not None and comps[-1] in e[1] and e[0][-1] == comps[-2]:
+                return Enum('::'.join(e[0]), comps[-1], list(args))
+        owners = self.variant_owner.get(comps[-1])
+        if owners and len(comps) == 1 and len(owners) == 1 and not self._is_struct_name(comps[-1]):
+            return Enum('::'.join(owners[0]), comps[-1], list(args))
+        if len(comps) == 1 and self._is_struct_name(comps[-1]) and comps[-1][:1].isupper():
+            return Struct(comps[-1], list(args))
+        return None
 
     def type_name_of(self, v, fr=None):
         v = self.deref(v, fr)
